@@ -319,6 +319,29 @@ def all_shapes(n, decl, allow_dd=True):
     return out
 
 
+def all_shapes_by_words(k, decl, allow_dd=True):
+    """every sequence of at most k argv words (a word tokenizes to one or two items)"""
+    out = []
+
+    def rec(prefix, left, pos_only):
+        out.append(tuple(prefix))
+        if left == 0:
+            return
+        if pos_only:
+            rec(prefix + ["pos"], left - 1, True)
+            return
+        for f in FORMS:
+            if f == "pos":
+                continue
+            if f == "dd" and not allow_dd:
+                continue
+            if f == "shortv" and not decl.short_args:
+                continue
+            rec(prefix + [f], left - 1, f == "dd")
+    rec([], k, False)
+    return out
+
+
 # ------------------------------------------------------------------------------------------------
 # State
 
